@@ -345,7 +345,7 @@ theorem strict_or_inband (z : Zoned) (hz : ZInv z) : TStrict z.utc.time ↔ ¬ I
   · intro h; exact ⟨hv, by omega⟩
 
 /-- **roundtrip_all** (the property's round-trip clause on its WHOLE quantifier domain).  For every
-well-formed value — any nanosecond field the type admits, the in-band leap representation included —
+well-formed value — any nanosecond field the type allows, the in-band leap representation included —
 with wall-clock year 0–9999 and a whole-minute offset, `parse_from_rfc2822(&z.to_rfc2822())` is `Ok
 (readBack z)`: never a panic, never `Err`; the same offset; `z` to whole seconds, a leap second on :59
 kept, an in-band leap value read as the following second. -/
